@@ -48,6 +48,8 @@ func runC01(c *core.Ctx) {
 	c01R4(c)
 	c01R5(c)
 	c01R7(c)
+	c01R8(c)
+	c01R9(c)
 }
 
 // sizeZeroPred: subs.Size()==0 of node base
@@ -490,5 +492,178 @@ func c01R7(c *core.Ctx) {
 			okL = eng.SameValue(a[0], param(f, 1)) && isRoot
 		}
 		c.Check(okL, rule, fnName(f)+":matcher from root", f.Pos(), "the configured matcher runs once from the root over the whole ssid", "Lookup does not run the configured matcher once from t.root with the full ssid")
+	}
+}
+
+// c01R8: one critical section per trie operation. A function that releases the trie lock and
+// takes it again works on node pointers found in an earlier critical section, which may have
+// been pruned in between (every access is still "under the lock", so R1 cannot see it).
+func c01R8(c *core.Ctx) {
+	rule := "C01.R8"
+	c.Rule(rule, "atomicity: no function acquires Trie.RWMutex again after having released it (node pointers found in one critical section are not used in another)", 4)
+	n := 0
+	for _, f := range c.P.ScopeFuncs() {
+		var unlocks []ssa.Instruction
+		isLock := func(in ssa.Instruction, acquire bool) bool {
+			call, ok := in.(*ssa.Call)
+			if !ok {
+				return false
+			}
+			id := eng.FuncID(eng.CalleeObj(&call.Call))
+			var want []string
+			if acquire {
+				want = []string{"sync.RWMutex.Lock", "sync.RWMutex.RLock"}
+			} else {
+				want = []string{"sync.RWMutex.Unlock", "sync.RWMutex.RUnlock"}
+			}
+			hit := false
+			for _, w := range want {
+				if id == w {
+					hit = true
+				}
+			}
+			if !hit {
+				return false
+			}
+			owner, field, _, ok := eng.FieldOf(eng.CallArgs(&call.Call)[0])
+			return ok && owner == tTrie && field == "RWMutex"
+		}
+		locks := 0
+		eng.Instrs(f, func(in ssa.Instruction) {
+			if isLock(in, false) {
+				unlocks = append(unlocks, in)
+			}
+			if isLock(in, true) {
+				locks++
+			}
+			if d, ok := in.(*ssa.Defer); ok {
+				id := eng.FuncID(eng.CalleeObj(&d.Call))
+				if id == "sync.RWMutex.Unlock" || id == "sync.RWMutex.RUnlock" {
+					if owner, field, _, ok := eng.FieldOf(eng.CallArgs(&d.Call)[0]); ok && owner == tTrie && field == "RWMutex" {
+						locks += 0
+					}
+				}
+			}
+		})
+		if locks == 0 {
+			continue
+		}
+		n++
+		bad := false
+		for _, u := range unlocks {
+			if again, w := eng.Reach(f, u, nil, func(i ssa.Instruction) bool { return isLock(i, true) }); again {
+				bad = true
+				c.Fail(rule, fnName(f)+":single critical section", u.Pos(), "the trie lock is released and acquired again in one operation; state read in the first section may be stale (e.g. a node pruned in between)", w...)
+			}
+		}
+		if !bad {
+			c.OK(rule, fnName(f)+":single critical section", f.Pos(), "one critical section per operation")
+		}
+	}
+	if n == 0 {
+		c.Fail(rule, "no locking function", token.NoPos, "no function takes Trie.RWMutex")
+	}
+}
+
+// c01R9: two-sided branch rules — no path skips a branch that the matching relation needs.
+func c01R9(c *core.Ctx) {
+	rule := "C01.R9"
+	c.Rule(rule, "no path skips a required branch: in both matchers, when the query is not exhausted children[query[0]] and children[wildcard] are looked up and a found child is recursed into; in Lookup the contract node, its share child and randomByGroup are reached whenever the preceding lookup succeeded", 9)
+	wild, _ := constOf(c, rule, "internal/message", "wildcard")
+	share, _ := constOf(c, rule, "internal/message", "share")
+	isChildLookup := func(in ssa.Instruction, kind string, f *ssa.Function) (*ssa.Lookup, bool) {
+		lk, ok := in.(*ssa.Lookup)
+		if !ok {
+			return nil, false
+		}
+		if _, ok := eng.LoadOfField(lk.X, "children"); !ok {
+			return nil, false
+		}
+		switch kind {
+		case "wildcard":
+			k, ok := eng.ConstInt(lk.Index)
+			return lk, ok && k == wild
+		case "share":
+			k, ok := eng.ConstInt(lk.Index)
+			return lk, ok && k == share
+		case "word0":
+			if u, ok := lk.Index.(*ssa.UnOp); ok && u.Op == token.MUL {
+				if ia, ok := u.X.(*ssa.IndexAddr); ok {
+					if k, ok := eng.ConstInt(ia.Index); ok && k == 0 {
+						return lk, true
+					}
+				}
+			}
+		}
+		return nil, false
+	}
+	for _, name := range []string{"lookupEmitter", "lookupMqtt"} {
+		f := fn(c, rule, "internal/message", "Trie", name)
+		if f == nil {
+			continue
+		}
+		notDone := eng.EqPred("len(query)!=0", false, func(x, y ssa.Value) bool {
+			k, ok := eng.ConstInt(y)
+			if !ok || k != 0 {
+				return false
+			}
+			q, ok := eng.LenOf(x)
+			return ok && eng.SameValue(q, param(f, 1))
+		})
+		for _, kind := range []string{"word0", "wildcard"} {
+			var lks []*ssa.Lookup
+			eng.Instrs(f, func(in ssa.Instruction) {
+				if lk, ok := isChildLookup(in, kind, f); ok {
+					lks = append(lks, lk)
+				}
+			})
+			if len(lks) != 1 {
+				c.Fail(rule, fnName(f)+":"+kind+" lookup", f.Pos(), fmt.Sprintf("expected one children[%s] lookup, found %d", kind, len(lks)))
+				continue
+			}
+			lk := lks[0]
+			ok, w := eng.MustFollow(f, []eng.Pred{notDone}, func(i ssa.Instruction) bool { return i == ssa.Instruction(lk) })
+			c.Check(ok && eng.HasLicensingEdge(f, notDone), rule, fnName(f)+":"+kind+" always consulted", lk.Pos(), "with levels left, children["+kind+"] is always consulted", fmt.Sprintf("a path with levels left skips children[%s]: %v", kind, w))
+			found := extractOf(lk, 1)
+			child := extractOf(lk, 0)
+			if found == nil || child == nil {
+				c.Fail(rule, fnName(f)+":"+kind+" recursion", lk.Pos(), "lookup result is not used in comma-ok form")
+				continue
+			}
+			ok, w = eng.MustFollow(f, []eng.Pred{eng.ValuePred("found", found, true)}, func(i ssa.Instruction) bool {
+				call, isCall := i.(*ssa.Call)
+				if !isCall || call.Call.StaticCallee() != f {
+					return false
+				}
+				return eng.CallArgs(&call.Call)[3] == child
+			})
+			c.Check(ok, rule, fnName(f)+":"+kind+" child recursed into", lk.Pos(), "a found child is always descended into", fmt.Sprintf("a found %s child is not descended into: %v", kind, w))
+		}
+	}
+	if f := fn(c, rule, "internal/message", "Trie", "Lookup"); f != nil {
+		var l0, ls *ssa.Lookup
+		eng.Instrs(f, func(in ssa.Instruction) {
+			if lk, ok := isChildLookup(in, "word0", f); ok {
+				l0 = lk
+			}
+			if lk, ok := isChildLookup(in, "share", f); ok {
+				ls = lk
+			}
+		})
+		if l0 == nil || ls == nil {
+			c.Fail(rule, fnName(f)+":share lookups", f.Pos(), "contract-node or share-node lookup missing")
+			return
+		}
+		ok, w := eng.MustPass(f, nil, func(i ssa.Instruction) bool { return i == ssa.Instruction(l0) })
+		c.Check(ok, rule, fnName(f)+":contract node always consulted", l0.Pos(), "every lookup consults the contract node for share groups", fmt.Sprintf("a path skips the share-group pass: %v", w))
+		f0, fs := extractOf(l0, 1), extractOf(ls, 1)
+		if f0 != nil {
+			ok, w = eng.MustFollow(f, []eng.Pred{eng.ValuePred("contract found", f0, true)}, func(i ssa.Instruction) bool { return i == ssa.Instruction(ls) })
+			c.Check(ok, rule, fnName(f)+":share child always consulted", ls.Pos(), "a present contract node is always asked for its share child", fmt.Sprintf("share child not consulted: %v", w))
+		}
+		if f0 != nil && fs != nil {
+			ok, w = eng.MustFollow(f, []eng.Pred{eng.ValuePred("contract found", f0, true), eng.ValuePred("share found", fs, true)}, func(i ssa.Instruction) bool { return eng.IsCallTo(i, idRandomByGroup) })
+			c.Check(ok, rule, fnName(f)+":randomByGroup always called", ls.Pos(), "an existing share node always gets its per-group pick", fmt.Sprintf("share node exists but randomByGroup is skipped: %v", w))
+		}
 	}
 }
